@@ -63,6 +63,8 @@ def generate():
     for k in sorted(x for x in dir(flags) if x.startswith("VERIFY_")):
         out.append("def %s : Nat := %d" % (k, getattr(flags, k)))
     fork, plain = [], []
+    base = {c: importlib.import_module("pycoin.symbols." + c).network.tx for c in ("btc", "ltc", "grs", "bch", "btg")}
+    classes = []
     for m in sorted(x.name for x in pkgutil.iter_modules(pycoin.symbols.__path__)):
         try:
             net = importlib.import_module("pycoin.symbols." + m).network
@@ -71,8 +73,14 @@ def generate():
         if not hasattr(net, "tx") or not hasattr(net.tx, "Solver"):
             continue
         (fork if _forces_forkid(net) else plain).append(m)
+        same = [c for c, T in base.items() if net.tx is T]
+        if len(same) != 1:
+            raise SystemExit("gen_sign: transaction class of %s is not one of the five modelled classes: %r" % (m, same))
+        classes.append((m, same[0]))
     out.append("/-- network modules under pycoin/symbols whose `Solver.solve` ors SIGHASH_FORKID into the hash type -/")
     out.append("def forkidCoins : List String := [%s]" % ", ".join('"%s"' % c for c in fork))
     out.append("def plainCoins : List String := [%s]" % ", ".join('"%s"' % c for c in plain))
+    out.append("/-- which of the five modelled transaction classes (`Model/Tx.lean: Coin`) `network.tx` of a symbol is -/")
+    out.append("def coinClass : List (String × String) := [%s]" % ", ".join('("%s", "%s")' % t for t in classes))
     out.append("\nend Pycoin.Gen.Sign\n")
     return {"Sign": "\n".join(out)}
